@@ -88,8 +88,8 @@ type inGate struct {
 
 // inTracer parks the instance at every JUMPDEST of the top frame until the scheduler grants a step.
 type inTracer struct {
-	g       *inGate
-	started bool
+	g          *inGate
+	started    bool
 	entryStack []int
 }
 
@@ -115,11 +115,11 @@ func (t *inTracer) CaptureState(pc uint64, op vm.OpCode, gas, cost uint64, scope
 }
 
 type inResult struct {
-	Class  string
-	Digest string
-	Detail string
-	Closed bool
-	Panic  string
+	Class            string
+	Digest           string
+	Detail           string
+	Closed           bool
+	Panic            string
 	EntryStacksClean bool
 }
 
